@@ -90,6 +90,17 @@ def check(rep, tier, seed):
             dis.append((C.codec_line(c), a, m))
         else:
             cls["both ok" if a.startswith("ok ") else "both err"] += 1
+    # evolved-record bytes read by a tuple of the record's initial fields (the oldest reader there is)
+    tcs = R.record_as_tuple_cases(rng, 1200 if tier == "quick" else 30000)
+    timpl, tmod = C.run_codec(harness, model, tcs, C.workdir("C06t"), "rtup")
+    for c, a, m in zip(tcs, timpl, tmod):
+        da, dm = a.partition(" ; ")[2], m.partition(" ; ")[2]
+        if da.startswith("ok ") and da != dm:
+            bad.append(({"env": c["env"], "cmd": "xrt", "ty": c["ty"], "ty2": c["ty2"], "val": c["val"], "sfx": c["sfx"]}, da, dm,
+                        "record bytes accepted by a tuple reader as something else than the format assigns"))
+        elif da != dm:
+            dis.append((C.codec_line(c), a, m))
+    rep.coverage["record_bytes_read_as_tuples"] = len(tcs)
     # bytes written by ANOTHER version of the declaration (legal histories and, half of the time, histories that drop or
     # hide fields anywhere): whatever the reader accepts must be what the reference decoder assigns to those bytes
     from . import c03 as H3
